@@ -4,7 +4,7 @@ PROP = dict(
         # the renewal/* monitors + every model/implementation mismatch; the state monitors of C03 are reported there
         flag_filter=r"^(?!(three_lists_equal|filesize_eq_len|merkle_root_eq|failed_commit_noop|restart_same))",
         quick=dict(n=480, len=40, shards=8, timeout=300),
-        thorough=dict(n=16000, len=60, shards=16, timeout=1500),
+        thorough=dict(n=12000, len=60, shards=16, timeout=1500),
         nontrivial=r"^renew[12] .*res=ok", min_ops=8, min_kinds=3,
         shrink_budget=80,
         trusted_base=COMMON_TB + [
